@@ -1,51 +1,34 @@
 #!/usr/bin/env python3
-"""Regenerates /verif/MANIFEST.json from the entries below (one place to edit)."""
-import json, os
+"""Assemble /verif/MANIFEST.json from lib/manifest/<id>.json fragments (level_claimed, level_note,
+technique per claimed property) and lib/manifest/not_applicable.json (reasons for the rest)."""
+import json, os, glob
 ROOT = os.path.dirname(os.path.dirname(os.path.abspath(__file__)))
-ALL = ["C%02d" % i for i in range(1, 21)]
-
-def chk(pid, text, note, tech, ref=None):
-    return {"property_id": pid, "quick_cmd": "./check %s --tier quick" % pid, "thorough_cmd": "./check %s --tier thorough" % pid,
-            "evidence_file": "/verif/evidence/%s.json" % pid, "replay_cmd_template": "./check %s --replay {path}" % pid,
-            "engine": "coq-proof+correspondence",
-            "level_claimed": {"category": "proof", "text": text, "design_ref": ref or "DESIGN.md §6 " + pid},
-            "level_note": note, "technique": tech}
-
-COMMON_NOTE = ("Trusted: Coq 8.16.1 kernel, extraction with ExtrOcamlBasic only, the OCaml driver, the Go harness and ./check; "
-               "the Gallina model is hand-written and tied to /repo only by the differential run on every check. ")
-
-CHECKS = [
- chk("C17",
-  "Coq theorems (Properties/C17.v, axiom-free) prove on a Gallina model of codec.go that every ReadNext call of the three stream codecs refines a schedule-free parser of the logical stream for every carry-over, read schedule and EOF style, that WriteNext/ReadNext round-trips, that over-limit and >=2^63 prefixes are refused, never a panic. The model is tied to /repo on every run by exact differential comparison (dst, n, error class, unread bytes) on ~19k generated calls/loops, and the extracted specification predicate is evaluated on the implementation's own results.",
-  COMMON_NOTE + "Limits positive; readers return >=1 byte unless at EOF; buffer capacity abstracted into the schedule.",
-  "Coq proof of refinement to a pure stream parser (induction over reads) + extracted-model differential run"),
- chk("C15",
-  "Coq theorems (Properties/C15.v) prove that the model of decodeTimeout accepts exactly the gRPC wire grammar (1-8 digits + unit), computes value x unit clamped to MaxInt64 without int64 wrap, and refuses every other string. Tie: every string of length <=3 over a boundary alphabet, all digit counts x units, random strings are sent through the real gRPC entry; the handler's observed ctx.Deadline (bracketed by clock readings) is judged by the extracted decision procedure. PARTIAL for cancellation: that net/http cancels the request context and unblocks reads is the run-time's doing; 12 cancel/disconnect scenarios on a loopback h2c/HTTP1 server are observed, not proved.",
-  COMMON_NOTE + "context.WithTimeout is an oracle; clock bracketing tolerance; cancellation only observed.",
-  "Coq proof that the timeout decoder is the decision procedure of the wire grammar + differential run through serveGRPC; cancellation observed on loopback (partial)"),
- chk("C05",
-  "Coq theorems (Properties/C05.v, 7, axiom-free): HTTP status and WebSocket close-code lookups are total over all uint32 codes and equal the reference table (finite sweep lifted + range lemma); grpc-message percent-encoding decodes back exactly with grpc-go's decoder for every byte string and is printable ASCII; gRPC-web frames parse back to exactly the written frames; base64 (4 variants) decodes to exactly the encoded bytes; close reason is a prefix within 123 bytes. Tie: ~1.7k scripted-status calls on 8 protocol/codec combinations through the real Mux; the client-side view is judged with the extracted decoders and tables, and the grpc-message header is compared exactly with the model.",
-  COMMON_NOTE + "Reference status table = code.go at the pinned commit; header OWS trimming; trailers-only gRPC-web responses accepted; protojson/proto/gobwas as independent decoders.",
-  "Coq proofs of codec laws (percent-encoding, base64, frames, total table lookups) + extracted decoders applied to the real responses"),
- chk("C14",
-  "Coq theorems (Properties/C14.v, 7, axiom-free) on a model of newIncomingContext / setOutgoingHeader / decodeBinHeader: the handler's metadata is exactly the non-reserved request headers (lower-cased, all values in order), -bin values decode to the client's bytes in the padded and the unpadded spelling, -bin response values are byte-exact, no handler metadata can change a reserved or net/http-framing response key (for every metadata and every base header map), every other key arrives with all values, trailers under TrailerPrefix are delivered unannounced. Tie: ~1.5k header/metadata cases on gRPC, gRPC-web and HTTP transcoding through the real Mux; incoming metadata compared exactly with the model, outgoing judged by the spec and a baseline call.",
-  COMMON_NOTE + "net/http's trailer delivery rule and header canonicalisation are modelled library facts; ResponseRecorder stands for the client.",
-  "Coq proof over association-list header maps (no-forgery, completeness, base64 both spellings) + differential run through ServeHTTP"),
-]
-
-def main():
-    claimed = [c["property_id"] for c in CHECKS]
-    m = {"version": 1, "setup_cmd": "./setup.sh",
-         "hooks": {"guard": "verif", "enable": "go build -tags verif (harness module with replace larking.io => /repo)",
-                   "baseline_off_cmd": "cd /repo && GOFLAGS=-mod=mod GOPROXY=off GOSUMDB=off GOTOOLCHAIN=local go test -vet=off -count=1 ./...",
-                   "source_commits": ["195d7ed"], "add_only": True},
-         "engines": [{"name": "coq-proof+correspondence", "path": "/verif/check", "serves_properties": claimed,
-                      "kind_free_text": "Coq 8.16.1 development (coq/), OCaml program extracted from it (ocaml/), Go harness built from /repo with -tags verif (harness/), Python driver (check, lib/props.py)"}],
-         "checks": CHECKS,
-         "notes": "Fix commits in /repo and recorded findings: KNOWN_FINDINGS.json. Properties listed under not_applicable with 'under construction' are not claimed yet.",
-         "not_applicable": [{"property_id": i, "reason": "check under construction (planned: Coq model + theorems + correspondence, DESIGN.md §6); not yet claimed"}
-                            for i in ALL if i not in claimed]}
-    json.dump(m, open(os.path.join(ROOT, "MANIFEST.json"), "w"), indent=1)
-
-if __name__ == "__main__":
-    main()
+ids = [json.loads(l)["id"] for l in open(os.path.join(ROOT, "properties.jsonl"))]
+frags = {}
+for p in glob.glob(os.path.join(ROOT, "lib", "manifest", "C*.json")):
+    frags[os.path.basename(p)[:-5]] = json.load(open(p))
+na = {}
+nap = os.path.join(ROOT, "lib", "manifest", "not_applicable.json")
+if os.path.exists(nap):
+    na = json.load(open(nap))
+hooks = json.load(open(os.path.join(ROOT, "lib", "manifest", "hooks.json")))
+claimed = [i for i in ids if i in frags]
+m = {
+ "version": 1, "setup_cmd": "./setup.sh", "hooks": hooks,
+ "engines": [{"name": "coq-proof+correspondence", "path": "/verif/check", "serves_properties": claimed,
+              "kind_free_text": "Coq 8.16.1 development (coq/), OCaml program extracted from it (ocaml/), Go harness built from /repo with -tags verif (harness/), Python driver (check, lib/)"}],
+ "checks": [], "notes": "Fix commits in /repo and recorded findings: KNOWN_FINDINGS.json. Seeded changes used to test the checks: seeded/. Properties listed under not_applicable with 'under construction' are not claimed yet.",
+ "not_applicable": [],
+}
+for i in claimed:
+    f = frags[i]
+    c = {"property_id": i, "quick_cmd": "./check %s --tier quick" % i, "thorough_cmd": "./check %s --tier thorough" % i,
+         "evidence_file": "/verif/evidence/%s.json" % i, "replay_cmd_template": "./check %s --replay {path}" % i,
+         "engine": "coq-proof+correspondence"}
+    c.update(f)
+    m["checks"].append(c)
+for i in ids:
+    if i not in frags:
+        m["not_applicable"].append({"property_id": i, "reason": na.get(i, "check under construction (planned: Coq model + theorems + correspondence, DESIGN.md section 6); not yet claimed")})
+json.dump(m, open(os.path.join(ROOT, "MANIFEST.json"), "w"), indent=1)
+print("claimed:", " ".join(claimed))
